@@ -10,7 +10,9 @@
       `enumOK` = `ik&(String|Int) == ik`, `op` / `nargs` = `Expr()` (operand views only under `&` and `|`);
     * `refPath` = `ReferencePath()`'s path text, `refName` = label of its last selector (the default `NameFunc`),
       `refPkg` = `referenceResolver.PackageForNode(v.Source(), pkg)` (data computed by the encoder from the syntax
-      node, no libraries and no import alias); a value with a reference path carries nothing below it
+      node, no libraries and no import alias), `refBadSel` = some selector of the path is neither a pattern
+      constraint, a string label nor a definition label (the guard at the top of `declareReference`, fix 0643960);
+      a value with a reference path carries nothing below it
       (`declareNode` stops at `declareReference`);
     * `hasDefault`, `dflt` = `Default()` as `cueConcreteToScalar` reads it (`CS`), its reference path, `Equals(v)`;
     * `concrete`, `scalar` = `IsConcrete()`, the value as `cueConcreteToScalar` reads it;
@@ -80,6 +82,7 @@ structure CInfo where
   refPath : String := ""
   refName : String := ""
   refPkg : String := ""
+  refBadSel : Bool := false
   hasDefault : Bool := false
   dflt : CS := .null
   dfltRefPath : String := ""
@@ -384,7 +387,8 @@ def declareObject (w : Walk) (pkg name : String) (v : CV) (st : St) : Outcome St
 
 /-- `declareReference(v, defV)` (the root value has an empty path: only the second branch can be taken) -/
 def declareReference (w : Walk) (pkg : String) (defs : Top) (v defV : CInfo) (st : St) : Outcome (Ty × St) :=
-  if v.refPath = "" then .ok (.bad "" {}, st)
+  if v.refBadSel then .err "unsupported reference to a hidden field or a local variable"
+  else if v.refPath = "" then .ok (.bad "" {}, st)
   else
     obind (extractDefault defV) fun d =>
       if v.refPkg = "time" ∧ v.refName = "Time" then
